@@ -172,6 +172,7 @@ PROPS["C12"]["generated"] = [{"module": "ScpiVerif.Props.C12Gen", "section": "re
 PROPS["C06"]["generated"] = [{"module": "ScpiVerif.Props.C06Gen", "section": "result_c"}]
 PROPS["C01"]["generated"] = PROPS["C01"]["generated"] + [{"module": "ScpiVerif.Props.C01InputGen", "section": "input_c"}]
 PROPS["C08"]["generated"] = [{"module": "ScpiVerif.Props.C01InputGen", "section": "input_c"}]
+PROPS["C09"]["generated"] = [{"module": "ScpiVerif.Props.C09InputGen", "section": "input_c"}]
 
 NOT_CLAIMED = {}
 
